@@ -82,6 +82,7 @@ ASSUMPTIONS = ['names are ASCII identifiers (str.upper on ASCII); association ke
 CHUNK = 6000
 CASE_TIMEOUT_S = 10
 
+LATE_SIG = 'late-formalise-stale-spelling'
 ABSENT = Sym('ABSENT')        # oracle: the cell holds no value (deleted)
 UNKNOWN = Sym('UNKNOWN')      # oracle: no demand (outside the domain / not determined by the history)
 
@@ -230,7 +231,7 @@ def _sql_value(v, ty, r):
     return '%d' % v
 
 
-def _random_case(r, maxlen, load=False, words=None):
+def _random_case(r, maxlen, load=False, words=None, late=False):
     # schema: target class A (first attribute is the key), source class B with one referential attribute;
     # with `load` the classes, the association and the first rows are given as SQL text to xtuml.ModelLoader;
     # with `words` = (hot, cold) about half of the attribute names are words the library uses for the parameters of its own
@@ -303,7 +304,7 @@ def _random_case(r, maxlen, load=False, words=None):
             cand = respell(r, r.choice(a_attrs)[0])
             if all(cand.upper() != nm.upper() for nm, _ in b_attrs):
                 b_attrs[pos][0] = cand
-    with_assoc = r.random() < 0.85 or load
+    with_assoc = r.random() < 0.85 or load or late
     ref_name = None
     if with_assoc:
         pos = r.randrange(len(b_attrs))
@@ -326,9 +327,10 @@ def _random_case(r, maxlen, load=False, words=None):
         kn = ka + kb + 'N'                                              # accepted: underscores, but not of the reserved form
         ops.append(['define', kn, [[nm, 'integer'] for nm in r.sample(NEAR_RESERVED, r.randint(1, 3))]])
         ops.append(['find', respell(r, kn)])
-    if with_assoc and not load:
+    if with_assoc and not load and not late:
         ops.append(['assoc', respell(r, kb), ref_name, respell(r, ka), respell(r, a_attrs[0][0])])
-    classes = {ka.upper(): (ka, a_attrs, None), kb.upper(): (kb, b_attrs, ref_name)}
+    # `late`: the association is formalised AFTER the first instances exist; until then its source key is a plain attribute
+    classes = {ka.upper(): (ka, a_attrs, None), kb.upper(): (kb, b_attrs, None if late else ref_name)}
     insts = []            # KIND per instance
     present = {}          # (i, NAME) -> bool
     sql, rows = [], []
@@ -408,6 +410,25 @@ def _random_case(r, maxlen, load=False, words=None):
 
     for _ in range(r.randint(0 if load else 2, 4)):
         ops.append(gen_new())
+    if late:
+        # the documented API routes on which instances exist before Association.formalize():
+        #   define_association + formalize at once, after the instances;   define_association, more instances, formalize;
+        #   define_association, more instances, batch_relate (links from the stored referential values), formalize
+        spec = [respell(r, kb), ref_name, respell(r, ka), respell(r, a_attrs[0][0])]
+        route = r.choice(['assoc', 'formalize', 'batch', 'batch'])
+        if route == 'assoc':
+            ops.append(['assoc'] + spec)
+        else:
+            ops.append(['assocdef'] + spec)
+            for _ in range(r.randint(0, 2)):
+                ops.append(gen_new())
+            if route == 'batch':
+                ops.append(['batch'])
+            ops.append(['formalize'])
+        classes[kb.upper()] = (kb, b_attrs, ref_name)
+        for i, K in enumerate(insts):
+            if K == kb.upper():
+                present[(i, ref_name.upper())] = False
     n = r.randint(3, maxlen)
     for _ in range(n):
         what = r.random()
@@ -472,6 +493,8 @@ def _random_case(r, maxlen, load=False, words=None):
                'schema': {'a': [ka, a_attrs], 'b': [kb, b_attrs], 'ref': ref_name, 'tkey': a_attrs[0][0]}}
     if words is not None:
         out['words'] = sorted(set(origin.values()))
+    if late:
+        out['late'] = True
     return out
 
 
@@ -561,6 +584,10 @@ def generate(ctx):
     rng = ctx.rng.fork('api-words')
     for i in range(ctx.pick(1000, 8000)):
         yield _random_case(rng.fork(i), 30, words=_API_WORDS)
+    # late formalisation: instances that exist before Association.formalize()
+    rng = ctx.rng.fork('late-formalize')
+    for i in range(ctx.pick(800, 6000)):
+        yield _random_case(rng.fork(i), 25, late=True)
     rng = ctx.rng.fork('api-words-loaded')
     for i in range(ctx.pick(300, 2500)):
         yield _random_case(rng.fork(i), 20, load=True, words=_API_WORDS)
@@ -667,6 +694,24 @@ def run_impl(case):
             stats['cases_api_words_with_such_attribute'] = 1
     written = {}           # (i, NAME) -> set of spellings written since the cell was last emptied
     nontrivial = False
+    pre_formal = set()     # instances of the referring class that existed when the association was formalised: they keep the
+    #                        value they were created with in __dict__ (nothing removes it); the property must shadow it under
+    #                        EVERY spelling.  Failures on them carry the narrow signature LATE_SIG
+    late_assoc = {}        # 'obj': the Association defined by `assocdef`, 'spec': its op
+
+    def late_sig(i, default):
+        return LATE_SIG if i in pre_formal else default
+
+    def formalised(spec, upto):
+        orc.classes[spec[0].upper()]['ref'] = spec[1]
+        orc.assoc = (spec[0].upper(), spec[1], spec[2].upper(), spec[3].upper())
+        for j, k in enumerate(orc.inst_kind):
+            if k == spec[0].upper():
+                pre_formal.add(j)
+        if pre_formal:
+            stats['instances_before_formalize'] = len(pre_formal)
+        for j in sorted(pre_formal):
+            check_instance(j, upto)
 
     def fail(sig, what, upto):
         if len(fails) < 4:
@@ -682,7 +727,7 @@ def run_impl(case):
             if k.upper() in up and up[k.upper()] != k:
                 fail('stray-dict-key', '__dict__ of instance %d holds the key %r beside the declared attribute %r'
                      % (i, k, up[k.upper()]), upto)
-            elif d['ref'] is not None and k.upper() == d['ref'].upper():
+            elif d['ref'] is not None and k.upper() == d['ref'].upper() and i not in pre_formal:
                 fail('referential-value-stored-twice', '__dict__ of instance %d holds a value under the referential attribute '
                      '%r, whose value is given by the link (spellings other than the declared one read this copy)'
                      % (i, k), upto)
@@ -697,7 +742,7 @@ def run_impl(case):
                 except AttributeError:
                     got = Sym('AttributeError')
                 if got != want or type(got) is not type(want):
-                    fail('read-differs-from-last-write' if not orc.is_ref(i, nm) else 'referential-read-differs',
+                    fail('read-differs-from-last-write' if not orc.is_ref(i, nm) else late_sig(i, 'referential-read-differs'),
                          'instance %d: reading %r gives %r, the value addressed by %r is %r' % (i, sp, got, nm, want), upto)
                     break
 
@@ -844,8 +889,17 @@ def run_impl(case):
             elif nm == 'assoc':
                 ass = m.define_association('R1', op[1], [op[2]], True, True, '', op[3], [op[4]], False, True, '')
                 ass.formalize()
-                orc.classes[op[1].upper()]['ref'] = op[2]
-                orc.assoc = (op[1].upper(), op[2], op[3].upper(), op[4].upper())
+                formalised(op[1:], n)
+            elif nm == 'assocdef':
+                late_assoc['obj'] = m.define_association('R1', op[1], [op[2]], True, True, '', op[3], [op[4]], False, True, '')
+                late_assoc['spec'] = op[1:]
+            elif nm == 'batch':
+                # links from the values the referring instances hold (the route a loader takes before it formalises)
+                late_assoc['obj'].batch_relate()
+                _oracle_batch(orc, late_assoc['spec'])
+            elif nm == 'formalize':
+                late_assoc['obj'].formalize()
+                formalised(late_assoc['spec'], n)
             elif nm == 'find':
                 K = op[1].upper()
                 try:
@@ -949,14 +1003,14 @@ def run_impl(case):
                 try:
                     setattr(inst, sp, v)
                     if is_ref:
-                        fail('referential-write-accepted', 'instance %d: writing the referential attribute under %r '
+                        fail(late_sig(i, 'referential-write-accepted'), 'instance %d: writing the referential attribute under %r '
                              'did not raise' % (i, sp), n)
                 except x.MetaException:
                     res = Sym('Meta')
                     if not is_ref:
                         fail('plain-write-rejected', 'instance %d: writing %r raised MetaException' % (i, sp), n)
                     elif list(inst.__dict__.items()) != before:
-                        fail('referential-write-changed-state', 'instance %d: rejected write under %r changed __dict__' % (i, sp), n)
+                        fail(late_sig(i, 'referential-write-changed-state'), 'instance %d: rejected write under %r changed __dict__' % (i, sp), n)
                 check_others(around, 'writing %r of instance %d' % (sp, i), n)
                 if dn is not None and not is_ref:
                     orc.cells[(i, dn.upper())] = v
@@ -1066,7 +1120,10 @@ def run_impl(case):
                         if nm == 'sel1':
                             want = want[:1]
                         if known and want != res:
-                            fail('where-eq-differs', '%s(%r, where_eq(%s)) gave instances %r, the cells match for %r'
+                            ref = orc.classes[K]['ref']
+                            stale = ref is not None and any(a.upper() == ref.upper() for a, _ in op[2]) and \
+                                any(orc.inst_kind[j] == K for j in pre_formal)
+                            fail(LATE_SIG if stale else 'where-eq-differs', '%s(%r, where_eq(%s)) gave instances %r, the cells match for %r'
                                  % ('select_many' if nm == 'sel' else 'select_any', op[1], op[2], res, want), n)
                     else:
                         fail('unknown-class-found', 'select(%r) did not raise' % op[1], n)
@@ -1211,6 +1268,33 @@ def _oracle_new(orc, i, op, inst, exc, written):
             orc.link[i] = hits[0] if hits else None
 
 
+def _oracle_batch(orc, spec):
+    """Association.batch_relate() before formalize: every referring instance whose stored value is not null is linked to the
+    instances of the referred class whose key holds that value"""
+    src, ref, tgt, tkey = spec[0].upper(), spec[1], spec[2].upper(), spec[3].upper()
+    ty = [t for a, t in orc.classes[src]['attrs'] if a == ref][0].upper()
+    for b, k in enumerate(orc.inst_kind):
+        if k != src:
+            continue
+        v = orc.cells.get((b, ref.upper()), UNKNOWN)
+        if v is UNKNOWN or v is ABSENT:
+            orc.link[b] = UNKNOWN
+            continue
+        if v is None or (ty == 'UNIQUE_ID' and v == 0) or (ty == 'STRING' and v == ''):
+            continue
+        hits, known = [], True
+        for a, k2 in enumerate(orc.inst_kind):
+            if k2 != tgt or a == b:
+                continue
+            c = orc.cells.get((a, tkey), UNKNOWN)
+            if c is UNKNOWN or c is ABSENT:
+                known = False
+                break
+            if c == v and type(c) is type(v):
+                hits.append(a)
+        orc.link[b] = hits[0] if (known and len(hits) == 1) else (None if known and not hits else UNKNOWN)
+
+
 def _oracle_link(orc, nm, i, j):
     """a relate/unrelate that did not raise"""
     if orc.assoc is None:
@@ -1219,6 +1303,8 @@ def _oracle_link(orc, nm, i, j):
         b, a = i, j
     else:
         b, a = j, i
+    if orc.link.get(b) is UNKNOWN:
+        return                # (several partners after a batch relate, or a failed creation: nothing is demanded any more)
     orc.link[b] = a if nm == 'rel' else None
 
 
@@ -1246,12 +1332,22 @@ def _ops_sexp(ops):
 def model_line(case):
     if case['fam'] == 'load':
         return None          # D only: the history starts from what xtuml.ModelLoader built, which the model does not construct
-    return dumps([Sym('attr')] + _ops_sexp(case['ops']))
+    ops = case['ops']
+    if case.get('late'):
+        if any(op[0] == 'batch' for op in ops):
+            return None      # D only: the model has no batch_relate
+        # define_association alone changes nothing an operation of the history can see: for the model the association is
+        # defined and formalised where the history formalises it
+        spec = [op for op in ops if op[0] == 'assocdef']
+        ops = [(['assoc'] + spec[0][1:] if op[0] == 'formalize' and spec else op) for op in ops if op[0] != 'assocdef']
+    return dumps([Sym('attr')] + _ops_sexp(ops))
 
 
 def model_obs(case, ans):
     out = list(ans)
     for n, op in enumerate(case['ops']):
+        if op[0] == 'assocdef':
+            out.insert(n, Sym('ok'))
         if op[0] == 'sel1' and isinstance(out[n], list):
             out[n] = out[n][:1]
         if op[0] == 'ser' and isinstance(out[n], list):
@@ -1264,7 +1360,7 @@ def model_obs(case, ans):
 def shrink_candidates(case):
     ops = case['ops']
     for i in range(len(ops) - 1, -1, -1):
-        if ops[i][0] in ('define', 'assoc', 'new') and case['fam'] != 'cls':
+        if ops[i][0] in ('define', 'assoc', 'new', 'assocdef', 'batch', 'formalize') and case['fam'] != 'cls':
             continue                      # (no op of the class-lookup family refers to an instance index)
         c = dict(case)
         c['ops'] = ops[:i] + ops[i + 1:]
